@@ -602,7 +602,7 @@ pub fn run(tier: Tier) -> i32 {
             "subjects": subs.len(),
             "subjects_left_out_as_slow_to_compile": *skipped_slow.lock().unwrap(),
             "compilation_histories": n_hist,
-            "compilation_histories_note": "14 programs that share struct / enum / fn / const names with different definitions or constant values; every ordered pair (thorough: triple) compiled in one thread of a fresh process; each compilation must equal what the same program gives as the first compilation of a fresh process",
+            "compilation_histories_note": "14 programs that share struct / enum / fn / const names with different definitions or constant values; every ordered pair (thorough: triple) compiled in one thread of a fresh process; each compilation must equal what the same program gives as the first compilation of a fresh process (the observation includes the Bristol export; every export of a process but its first goes over an older, longer file at the same path)",
             "compilations_in_histories": n_hist_comps,
             "histories_complete": hist_complete,
             "choice_points_total": points_total.load(Ordering::Relaxed),
